@@ -232,6 +232,9 @@ func buildSchema(spec *SchemaSpec) (*graphql.Schema, error) {
 	if spec.Mutation != "" {
 		def.Mutation = objects[spec.Mutation]
 	}
+	if spec.Subscription != "" {
+		def.Subscription = objects[spec.Subscription]
+	}
 	if def.Query == nil {
 		return nil, fmt.Errorf("no query type")
 	}
